@@ -196,3 +196,45 @@ def _(self, decoder: Obj("Decoder")):
     use(octet_top(decoder.value, decoder.number_of_bits))
     ensures(decoder.number_of_bits == old(decoder.number_of_bits) - oer_enum_size(old(decoder.value), old(decoder.number_of_bits)))
     ensures(decoder.number_of_bits < old(decoder.number_of_bits))
+
+
+invariant("Integer", (self.length is None) == (self.fmt is None),
+          implies(self.fmt is not None,
+                  (self.length == 1 or self.length == 2 or self.length == 4 or self.length == 8)
+                  and self.fmt == (('>b' if self.length == 1 else '>h' if self.length == 2 else '>i' if self.length == 4 else '>q')
+                                   if self.signed else
+                                   ('>B' if self.length == 1 else '>H' if self.length == 2 else '>I' if self.length == 4 else '>Q'))))
+fixup("Integer", "self.length = [None, 1, 2, 4, 8][abs(self.length or 0) % 5]\nself.fmt = None if self.length is None else {1: '>b', 2: '>h', 4: '>i', 8: '>q'}[self.length] if self.signed else {1: '>B', 2: '>H', 4: '>I', 8: '>Q'}[self.length]")
+
+
+@contract("Integer.encode", props=["C06", "C01", "C12"])
+def _(self, data: Int, encoder: Obj("Encoder")):
+    # X.696 10: a fixed-size form is exactly `length` octets holding the value in big-endian (two's complement when
+    # signed); otherwise a length-prefixed form, unsigned only without a negative lower bound
+    # the value is inside the range the fixed-size form was chosen for: established by check_constraints (C11)
+    requires(implies(self.fmt is not None and self.signed,
+                     (self.length == 1 and -128 <= data and data <= 127)
+                     or (self.length == 2 and -32768 <= data and data <= 32767)
+                     or (self.length == 4 and -2147483648 <= data and data <= 2147483647)
+                     or (self.length == 8 and -9223372036854775808 <= data and data <= 9223372036854775807)))
+    requires(implies(self.fmt is not None and not self.signed,
+                     0 <= data and ((self.length == 1 and data <= 255) or (self.length == 2 and data <= 65535)
+                                    or (self.length == 4 and data <= 4294967295)
+                                    or (self.length == 8 and data <= 18446744073709551615))))
+    requires(implies(self.fmt is None and not self.signed, data >= 0))
+    requires(-pow2(1000) < data and data < pow2(1000))
+    raises(EncodeError, when=self.fmt is None)      # only the length-prefixed forms can refuse (a length of 128 octets or more)
+    assigns(encoder)
+    ensures(implies(self.fmt is not None,
+                    encoder.number_of_bits == old(encoder.number_of_bits) + 8 * self.length
+                    and encoder.value == old(encoder.value) * pow2(8 * self.length) + be_val(be_bytes(data, self.length))))
+    ensures(encoder.number_of_bits > old(encoder.number_of_bits))
+
+
+@contract("Integer.decode", props=["C06", "C01", "C16", "C08"])
+def _(self, decoder: Obj("Decoder")) -> Int:
+    refines("Type.decode")
+    opaque("oer_ld_size", "oer_ld_val", "oer_first")
+    # a fixed-size form consumes exactly `length` octets; truncation is OutOfDataError (C16), never struct.error
+    ensures(implies(self.fmt is not None, decoder.number_of_bits == old(decoder.number_of_bits) - 8 * self.length))
+    ensures(decoder.number_of_bits < old(decoder.number_of_bits))
